@@ -126,8 +126,12 @@ func (fr *Frame) execInstr(in ssa.Instruction) {
 		fr.nilCheck(addr, "store")
 		if v.P != nil && (p.Local == nil || len(p.Path) > 0) {
 			// storing an engine-level pointer into memory: lose precision
-			c.Note(fmt.Sprintf("%s: engine-level pointer stored to memory (opaque)", fr.fn.Name()))
-			v = &Value{T: v.T, C: []Term{c.Fresh("optr", SInt)}}
+			if pv := fr.proxyFor(v); pv != nil {
+				v = pv
+			} else {
+				c.Note(fmt.Sprintf("%s: engine-level pointer stored to memory (opaque)", fr.fn.Name()))
+				v = &Value{T: v.T, C: []Term{c.Fresh("optr", SInt)}}
+			}
 		}
 		if lt := x.locType(x.normPtr(p)); len(e.layout(lt)) != len(v.C) {
 			fr.unsupported("store shape mismatch %v (%d comps) <- %v (%d comps) at %s", lt, len(e.layout(lt)), v.T, len(v.C), n.String())
@@ -149,6 +153,7 @@ func (fr *Frame) execInstr(in ssa.Instruction) {
 		}
 		out := &Value{T: n.Type(), C: []Term{idt}, P: np}
 		fr.set(n, out)
+		fr.guardCheck(n, xv, &p, np)
 	case *ssa.Field:
 		xv := fr.val(n.X)
 		stt := xv.T.Underlying().(*types.Struct)
@@ -212,6 +217,7 @@ func (fr *Frame) execInstr(in ssa.Instruction) {
 	case *ssa.ChangeType:
 		xv := fr.val(n.X)
 		fr.set(n, &Value{T: n.Type(), C: xv.C, P: xv.P})
+		fr.implementsCheck(n, xv)
 	case *ssa.Convert:
 		fr.set(n, fr.convert(fr.val(n.X), n.Type()))
 	case *ssa.MultiConvert:
@@ -1093,4 +1099,178 @@ func (fr *Frame) allocBound(n Term) {
 		return
 	}
 	fr.obligation("alloc", "make-within-allocbound", fr.reach, Le(n, b), "allocation bounded by "+cl.Text)
+}
+
+// guardCheck: lock discipline of a declared field (see GuardDecl). The obligation is stated at the address computation:
+// a guarded field needs the mutex of the same object held by this call for every access; an immutable field may be read
+// freely and written only on an object allocated during this call. Objects that live in a local variable (never
+// shared) carry no obligation.
+func (fr *Frame) guardCheck(n *ssa.FieldAddr, xv *Value, p *Ptr, np *Ptr) {
+	x := fr.x
+	pt, ok := n.X.Type().Underlying().(*types.Pointer)
+	if !ok {
+		return
+	}
+	nt, ok := pt.Elem().(*types.Named)
+	if !ok || nt.Obj().Pkg() == nil {
+		return
+	}
+	gm := x.eng.guards[nt.Obj().Pkg().Path()+"."+nt.Obj().Name()]
+	if gm == nil {
+		return
+	}
+	stt, _ := nt.Underlying().(*types.Struct)
+	if stt == nil {
+		return
+	}
+	fname := stt.Field(n.Field).Name()
+	gd := gm[fname]
+	if gd == nil {
+		return
+	}
+	if np.Local != nil {
+		return
+	}
+	write := guardedWrite(n)
+	if gd.Mutex == "" && !write {
+		return
+	}
+	freshObj := Ge(xv.C[0], x.entryAlloc)
+	if gd.Mutex == "" {
+		fr.obligation("guarded", "immutable-field-"+fname+"-written-only-on-an-object-allocated-in-this-call", fr.reach, freshObj,
+			nt.Obj().Name()+"."+fname+" is immutable after construction")
+		return
+	}
+	mi := -1
+	for i := 0; i < stt.NumFields(); i++ {
+		if stt.Field(i).Name() == gd.Mutex {
+			mi = i
+		}
+	}
+	if mi < 0 {
+		fr.x.cur.errors = append(fr.x.cur.errors, fmt.Sprintf("guarded %s.%s by %s: no such mutex field", nt.Obj().Name(), fname, gd.Mutex))
+		return
+	}
+	base := *x.ptrOf(xv)
+	base.Path = append(append([]PathEl(nil), base.Path...), PathEl{Field: mi})
+	held := x.Load(fr.cur, x.normPtr(&base))
+	kind := "read"
+	if write {
+		kind = "write"
+	}
+	fr.obligation("guarded", fmt.Sprintf("%s-of-%s-with-%s-held", kind, fname, gd.Mutex), fr.reach, Or(held.C[0], freshObj),
+		fmt.Sprintf("%s.%s is guarded by %s: held(x.%s) || allocated in this call", nt.Obj().Name(), fname, gd.Mutex, gd.Mutex))
+}
+
+// guardedWrite: is the address used for anything but loads?
+func guardedWrite(n *ssa.FieldAddr) bool {
+	refs := n.Referrers()
+	if refs == nil {
+		return true
+	}
+	for _, r := range *refs {
+		switch u := r.(type) {
+		case *ssa.UnOp:
+			if u.Op == token.MUL {
+				continue
+			}
+		case *ssa.DebugRef:
+			continue
+		}
+		return true
+	}
+	return false
+}
+
+// implementsCheck: a function that becomes a value of a named function type with a (checked) contract must have been
+// verified against that contract ("implements T" in its own contract).
+func (fr *Frame) implementsCheck(n *ssa.ChangeType, xv *Value) {
+	x := fr.x
+	nt, ok := n.Type().(*types.Named)
+	if !ok || nt.Obj().Pkg() == nil {
+		return
+	}
+	if _, isSig := nt.Underlying().(*types.Signature); !isSig {
+		return
+	}
+	tc, ok := x.eng.contracts[nt.Obj().Pkg().Path()+"::("+nt.Obj().Name()+").call"]
+	if !ok || tc.Trusted {
+		return
+	}
+	what := "unknown function value"
+	if len(xv.C) == 1 {
+		if id, ok := litVal(xv.C[0]); ok {
+			if fn := x.eng.funcByID[int(id.Int64())]; fn != nil {
+				what = fn.Name()
+				if fn.Pkg != nil {
+					if fc := x.eng.contractFor(fn); fc != nil && fc.Implements == nt.Obj().Name() && fn.Pkg.Pkg == nt.Obj().Pkg() {
+						x.cur.trivial++
+						return
+					}
+				}
+			}
+		}
+	}
+	fr.obligation("implements", what+"-as-"+nt.Obj().Name(), fr.reach, TFalse,
+		"a function used as "+nt.Obj().Name()+" must be verified against the contract of that type (implements "+nt.Obj().Name()+")")
+}
+
+// proxyFor: a pointer to a struct embedded in a heap object is about to be stored in memory. Pointers in memory are
+// object references, so the embedded struct gets a stand-in object of its own type that is kept in step with the
+// embedded fields at every call made from the frames of this verification (copied in before the call, copied back after
+// it): code that only hands the stored pointer to callees (the pattern of the protocol constructors) sees and updates
+// the embedded struct. Direct accesses through the stored pointer between two calls would not be reflected.
+func (fr *Frame) proxyFor(v *Value) *Value {
+	x := fr.x
+	p := v.P
+	if p == nil || p.Local != nil || p.Global != nil || len(p.Path) == 0 || p.Heap.S == "" {
+		return nil
+	}
+	pt, ok := v.T.Underlying().(*types.Pointer)
+	if !ok {
+		return nil
+	}
+	if _, isStruct := pt.Elem().Underlying().(*types.Struct); !isStruct {
+		return nil
+	}
+	for _, el := range p.Path {
+		if el.Field < 0 {
+			return nil
+		}
+	}
+	for _, pr := range x.proxies {
+		if pr.key == ptrKey(p) {
+			return &Value{T: v.T, C: []Term{pr.ref}}
+		}
+	}
+	ref := x.newRef(fr.cur, "embedded")
+	pr := proxyRec{ref: ref, T: v.T, base: p, key: ptrKey(p)}
+	x.proxies = append(x.proxies, pr)
+	x.ctx.Note(fmt.Sprintf("%s: pointer to an embedded struct stored in memory: modelled by a stand-in object synchronised at calls", fr.fn.Name()))
+	x.syncProxy(fr.cur, pr, true)
+	return &Value{T: v.T, C: []Term{ref}}
+}
+
+type proxyRec struct {
+	ref  Term
+	T    types.Type
+	base *Ptr
+	key  string
+}
+
+func ptrKey(p *Ptr) string {
+	s := p.Heap.S
+	for _, el := range p.Path {
+		s += fmt.Sprintf("/%d", el.Field)
+	}
+	return s
+}
+
+func (x *Exec) syncProxy(st *State, pr proxyRec, toProxy bool) {
+	pp := x.ptrOf(&Value{T: pr.T, C: []Term{pr.ref}})
+	if toProxy {
+		x.Store(st, pp, x.Load(st, pr.base))
+	} else {
+		x.Store(st, pr.base, x.Load(st, pp))
+	}
 }
